@@ -35,6 +35,8 @@ pub const WORDS: &[&str] = &[
     "1in", "1fr", "1px*1px", "1/0", "0/0", "-0", "+1", "1e", "1e+", "0x10",
     // sign / dot / exponent boundaries of the number lexer
     "-.", "+.", "-.5", "+.5e", "-.x", "+.e", "1.e3", "1.5.2", "-..", ".e1", "1e-", "-.5e+",
+    // multi-byte text followed by a loud comment on the same line (character column != byte offset)
+    "/* 注釈です */ /* end */", "\"日本語\"; /* end */", "\"ééé\"}/*! end */", "/* é😀 */ /*! x\n y */",
 ];
 
 pub const GLOBAL_FNS: &[&str] = &[
